@@ -81,7 +81,7 @@ var osFuncs = map[string]string{
 	"MkdirAll": "MkdirAll", "Link": "Link", "Symlink": "Symlink", "Create": "Create",
 	"CreateTemp": "CreateTemp", "OpenFile": "OpenFile", "WriteFile": "WriteFile",
 	"Chmod": "Chmod", "Chtimes": "Chtimes", "Truncate": "Truncate", "MkdirTemp": "MkdirTemp",
-	"Open": "Open", "ReadFile": "ReadFile",
+	"Open": "Open", "ReadFile": "ReadFile", "Lstat": "Lstat", "Readlink": "Readlink",
 }
 
 var xattrFuncs = map[string]string{"LSet": "XattrLSet", "Set": "XattrSet", "LRemove": "XattrLRemove", "Remove": "XattrRemove"}
